@@ -12,8 +12,8 @@
    is the statement that the counter has not wrapped below that bound). *)
 From Coq Require Import List NArith Arith Lia.
 From GmsmVerif Require Import Lib.Outcome SM3.SM3Spec SM3.HMACSpec SM3.HashSpec SM3.SM3Model
-  SM3.SM3Proofs SM3.SM3History SM3.HMACProofs SM3.SM3Heap SM3.SM3HeapProofs SM3.SM3Arith SM3.SM3ArithProofs SM3.SM3ModelConsts SM3.SM3ConstsProofs SM3.SM3Fast SM3.SM3FastProofs SM3.HMACMarshal SM3.HMACMarshalProofs SM3.GmtlsOps SM3.GmtlsOpsProofs
-  Agree.KeyModel Gen.SM3IV Gen.SM3Consts.
+  SM3.SM3Proofs SM3.SM3History SM3.HMACProofs SM3.SM3Heap SM3.SM3HeapProofs SM3.SM3Arith SM3.SM3ArithProofs SM3.SM3ModelConsts SM3.SM3ConstsProofs SM3.SM3CodeTie SM3.SM3Fast SM3.SM3FastProofs SM3.HMACMarshal SM3.HMACMarshalProofs SM3.GmtlsOps SM3.GmtlsOpsProofs
+  Agree.KeyModel Gen.SM3IV Gen.SM3Consts Gen.SM3Code.
 Import ListNotations.
 Open Scope N_scope.
 
@@ -226,36 +226,57 @@ Theorem C04_sm3_is_arithmetic :
 Proof. exact sm3_arith. Qed.
 Print Assumptions C04_sm3_is_arithmetic.
 
-(* (g) Translator tie for the round structure.  coq/Gen/SM3Consts.v is regenerated from the AST of
-   /repo/sm3/sm3.go on every run: rotation amounts of p0/p1/expansion/rounds, the two T constants, the
-   bounds of the five loops of update, array sizes [68]/[64], the index offsets w[i-16..i+4], block
-   size, digest size, the constants of pad (0x80, 56, the eight shifts and masks, %64), len(p)*8.
-   What the source says now is what the model hard-codes ... *)
-Theorem C04_constants_from_source : K_gen = K_model /\ gen_shape = model_shape.
-Proof. split; [exact K_gen_is_model|exact gen_shape_ok]. Qed.
+(* (g) Tie to the source.  On every run the translator regenerates from the AST of /repo/sm3/sm3.go
+   (1) coq/Gen/SM3Code.v: the block body of update and of update2 (message expansion, W', both round
+       loops with ff0/ff1/gg0/gg1/p0/p1/leftRotate inlined, the T constants, the feed-forward) and the
+       length bytes of pad, translated statement by statement - loops as folds, arrays as lists, uint32
+       arithmetic with explicit wrap-around;
+   (2) coq/Gen/SM3Consts.v: the constants of the parts that stay hand-modelled (block loop 64/64, array
+       sizes 68/64, pad's 0x80 / 0x00 / 64 / 56, BlockSize, Size, len(p)*8).
+   The generated block bodies ARE the model's block body (words below 2^32, bytes below 2^8), hence the
+   standard's CF; the generated length bytes are the model's.  A refactoring that keeps the meaning
+   (a hoisted sub-expression, a loop instead of eight statements) keeps these theorems; a changed
+   rotation amount, constant, index or bound does not. *)
+Theorem C04_generated_compression_is_model :
+  (forall w w1 a b c d e f g h msg,
+     Forall w32 w -> Forall w32 w1 -> regs_w32 (a, b, c, d, e, f, g, h) -> Forall byte_ok msg ->
+     gen_update_body w w1 a b c d e f g h msg = block_body w w1 (a, b, c, d, e, f, g, h) msg /\
+     gen_update2_body w w1 a b c d e f g h msg = block_body w w1 (a, b, c, d, e, f, g, h) msg) /\
+  (forall w w1 a b c d e f g h msg,
+     length w = 68%nat -> length w1 = 64%nat -> (64 <= length msg)%nat ->
+     Forall w32 w -> Forall w32 w1 -> regs_w32 (a, b, c, d, e, f, g, h) -> Forall byte_ok msg ->
+     digest_of_regs (snd (gen_update_body w w1 a b c d e f g h msg)) = sm3_cf [a; b; c; d; e; f; g; h] (firstn 64 msg) /\
+     digest_of_regs (snd (gen_update2_body w w1 a b c d e f g h msg)) = sm3_cf [a; b; c; d; e; f; g; h] (firstn 64 msg)) /\
+  (forall s, pad s = (do msg <- pad_loop 64 (s_unhandleMsg s ++ [0x80]);
+                      let msg := gen_pad_length (s_length s) msg in
+                      if negb (length msg mod 64 =? 0)%nat then Panic else Ok msg)).
+Proof.
+  split; [|split].
+  - intros. split; [apply gen_update_body_is_model|apply gen_update2_body_is_model]; assumption.
+  - intros w w1 a b c d e f g h msg Lw Lw1 Lm Hw Hw1 Hr Hm.
+    rewrite gen_update_body_is_model, gen_update2_body_is_model by assumption.
+    destruct (block_body_spec w w1 (a, b, c, d, e, f, g, h) msg Lw Lw1 Lm) as (w' & w1' & r' & E & _ & _ & Hd).
+    rewrite E. cbn [snd]. split; exact Hd.
+  - exact pad_uses_generated_length.
+Qed.
+Print Assumptions C04_generated_compression_is_model.
+
+(* the constants of the hand-modelled parts, as the source has them now, are those of the model ... *)
+Theorem C04_constants_from_source : K_gen = K_model.
+Proof. exact K_gen_is_model. Qed.
 Print Assumptions C04_constants_from_source.
 
-(* ... and the model IS the constant-parametrised model (SM3/SM3ModelConsts.v) at the constants of the
-   source: editing a rotation amount, a T constant, a loop bound or a pad constant in sm3.go makes this
-   theorem fail, not only the correspondence run *)
+(* ... and those parts ARE the constant-parametrised model (SM3/SM3ModelConsts.v) at the constants of the
+   source (pad_K uses the generated length bytes) *)
 Theorem C04_model_uses_source_constants :
-  (forall w w1 r msg, block_body w w1 r msg = block_body_K K_gen w w1 r msg) /\
   (forall s msg, update s msg = update_K K_gen s msg) /\
   (forall s msg, update2 s msg = update2_K K_gen s msg) /\
   (forall s, pad s = pad_K K_gen s) /\
   (forall s p, Write s p = Write_K K_gen s p) /\
   (forall s i, Sum s i = Sum_K K_gen s i) /\
-  BlockSize = k_BlockSize K_gen /\ Size = k_Size K_gen /\
-  (snd (k_sum_loop K_gen) * k_word K_gen = Size)%nat.
+  BlockSize = k_BlockSize K_gen /\ Size = k_Size K_gen.
 Proof. exact model_uses_source_constants. Qed.
 Print Assumptions C04_model_uses_source_constants.
-
-(* the translator compared the statement lists of update and update2: identical up to the last
-   statements (store a..h into sm3.digest[0..7] / into a local array that is returned) - the model
-   shares one loop between the two *)
-Theorem C04_update2_same_text_as_update : gen_update2_same_as_update = true.
-Proof. reflexivity. Qed.
-Print Assumptions C04_update2_same_text_as_update.
 
 (* (h) The fast variant for the extracted runners (SM3/SM3Fast.v: words as records of 32 booleans,
    window-based expansion, list-walking rounds, table of T_j <<< j) computes the same function as the
@@ -397,4 +418,20 @@ Example C04_gmtls_example :
 Proof.
   split; [vm_compute; reflexivity|].
   eexists. split; [vm_compute; reflexivity|]. vm_compute. reflexivity.
+Qed.
+
+(* the generated block body evaluated: the hypotheses of (g) are met by the zero scratch arrays, the IV
+   and the padded "abc", and the result is the standard's A.1 digest *)
+Example C04_generated_example :
+  let msg := sm3_pad [0x61; 0x62; 0x63] in
+  Forall w32 zero_w /\ Forall w32 zero_w1 /\ Forall byte_ok msg /\
+  flat_map PutUint32 (digest_of_regs (snd (gen_update_body zero_w zero_w1
+     0x7380166f 0x4914b2b9 0x172442d7 0xda8a0600 0xa96f30bc 0x163138aa 0xe38dee4d 0xb0fb0e4e msg))) =
+  sm3 [0x61; 0x62; 0x63].
+Proof.
+  cbv zeta. split; [|split; [|split]].
+  - apply Forall_forall. intros x Hx. apply repeat_spec in Hx. subst x. reflexivity.
+  - apply Forall_forall. intros x Hx. apply repeat_spec in Hx. subst x. reflexivity.
+  - apply sm3_pad_ok. repeat constructor.
+  - vm_compute. reflexivity.
 Qed.
